@@ -27,12 +27,15 @@ ap.add_argument("--props", required=True)
 ap.add_argument("--tier", default="quick")
 ap.add_argument("--suite", action="store_true")
 ap.add_argument("--breaks", default=None, help="property the change was written to break")
+ap.add_argument("--needs", default=None, help="what the change needs in order to manifest (one line)")
 args = ap.parse_args()
 
 patch = os.path.join(args.change_dir, "patch.diff")
 demo = os.path.join(args.change_dir, "demo.py")
 scratch = tempfile.mkdtemp(prefix="tryseed-")
 meta = {"name": args.name, "breaks_property": args.breaks or args.props.split(",")[0], "ran": [], "checks": {}}
+if args.needs:
+    meta["needs"] = args.needs
 try:
     subprocess.check_call(f"git -C /repo archive HEAD | tar -x -C {scratch}", shell=True)
     subprocess.check_call(["git", "init", "-q"], cwd=scratch)
@@ -80,6 +83,9 @@ try:
         if "suite_result" in old and "suite_result" not in meta:
             meta["suite_result"] = old["suite_result"]
         meta["ran"] = old.get("ran", []) + meta["ran"]
+        for k in ("needs", "missed_at_first"):
+            if k in old and k not in meta:
+                meta[k] = old[k]
     json.dump(meta, open(mp, "w"), indent=1)
 finally:
     shutil.rmtree(scratch, ignore_errors=True)
